@@ -1,5 +1,6 @@
 # vlib/cond.py — condition ASTs: generation, YARA printer, Gallina printer (Model/Eval.v `expr`).
 # An AST node is a tuple; the same object is printed for boreal and for Coq.
+import json
 from .core import gZ, gbool, glist, gbytes, gopt
 
 RI_TYPES = ["int8", "uint8", "int16", "uint16", "int32", "uint32", "int16be", "uint16be", "int32be", "uint32be"]
@@ -105,6 +106,9 @@ class Printer:
         if t == "un":
             op = {"neg": "-", "bnot": "~", "not": "not "}[e[1]]
             return "(%s%s)" % (op, self.y(e[2], depth))
+        if t == "matches":   # (matches, subject, regex AST of vlib/props/c03.py as JSON text, nocase, dot_all)
+            from .props import c03
+            return "(%s matches /%s/%s%s)" % (self.y(e[1], depth), c03.re_text(json.loads(e[2])), "i" if e[3] else "", "s" if e[4] else "")
         if t == "bin":
             if e[1] in BIN_STR:
                 op = BIN_STR[e[1]][0]
@@ -184,6 +188,9 @@ class Printer:
             return "(EVarIn %s %s %s)" % (self.gv(e[1]), self.g(e[2]), self.g(e[3]))
         if t == "un":
             return "(EUn %s %s)" % ({"neg": "UNeg", "bnot": "UBnot", "not": "UNot"}[e[1]], self.g(e[2]))
+        if t == "matches":
+            from .props import c03
+            return "(EUn (UMatches %s %s %s) %s)" % (gbool(e[3]), gbool(e[4]), c03.g_node(json.loads(e[2])), self.g(e[1]))
         if t == "bin":
             op = BIN_STR[e[1]][1] if e[1] in BIN_STR else BIN_COQ[e[1]]
             return "(EBin (%s) %s %s)" % (op, self.g(e[2]), self.g(e[3]))
